@@ -293,6 +293,44 @@ let classify head body lines supported =
 
 let fuel = nat_of_int 4000
 
+(* C01_DUMP=1: print the model inputs of every replayed case in Coq syntax (used to write the
+   witnesses of coq/Core/Lifecycle_refuted.v) *)
+let dump = (try Sys.getenv "C01_DUMP" = "1" with Not_found -> false)
+let zs z = Printf.sprintf "(%s)%%Z" (string_of_z z)
+let bs b = if b then "true" else "false"
+let ns n = string_of_int (int_of_nat n)
+let ls f l = "[" ^ String.concat "; " (List.map f l) ^ "]"
+let tev_str = function
+  | TI q -> "TI " ^ ns q
+  | TQ (rc, a, b, c) -> Printf.sprintf "TQ %s %s %s %s" (zs rc) (ns a) (ns b) (ns c)
+  | TD rc -> "TD " ^ zs rc | TN rc -> "TN " ^ zs rc | TO rc -> "TO " ^ zs rc
+  | TW (q, s, t) -> Printf.sprintf "TW %s %s %s" (ns q) (ns s) (bs t)
+  | TF (s, rc) -> Printf.sprintf "TF %s %s" (ns s) (zs rc)
+  | TM (q, s, a) -> Printf.sprintf "TM %s %s (mk_ans %s %s %s %s %s %s)" (ns q) (ns s) (ns a.a_rcode) (bs a.a_tc) (ns a.a_ancount) (bs a.a_resp_opt) (bs a.a_req_opt) (bs a.a_req_optcnt)
+  | TMR (rc, b) -> Printf.sprintf "TMR %s %s" (zs rc) (bs b)
+  | TX (s, st) -> Printf.sprintf "TX %s %s" (ns s) (zs st)
+  | TCL s -> "TCL " ^ ns s
+  | TE (q, st) -> Printf.sprintf "TE %s %s" (ns q) (zs st)
+  | TS -> "TS" | TG -> "TG" | TK -> "TK" | TKE -> "TKE"
+  | TP (rc, a, b) -> Printf.sprintf "TP %s %s %s" (zs rc) (bs a) (bs b)
+  | TR rc -> "TR " ^ zs rc
+let call_str = function
+  | ASync (t, st) -> Printf.sprintf "ASync %s %s" (ns t) (zs st)
+  | ASend t -> "ASend " ^ ns t | ASendRaw t -> "ASendRaw " ^ ns t | AQuery t -> "AQuery " ^ ns t
+  | AOQuery (t, rc) -> Printf.sprintf "AOQuery %s %s" (ns t) (zs rc)
+  | ASearch (t, l) -> Printf.sprintf "ASearch %s %s" (ns t) (ls bs l)
+  | AOSearch (t, l) -> Printf.sprintf "AOSearch %s %s" (ns t) (ls bs l)
+  | AGhba (t, l) -> Printf.sprintf "AGhba %s %s" (ns t) (ls bs l)
+  | AGni (t, l, b) -> Printf.sprintf "AGni %s %s %s" (ns t) (ls bs l) (bs b)
+  | AGai (t, l, f, lk, lh) -> Printf.sprintf "AGai %s %s %s %s %s" (ns t) (ls bs l) (ns f) (ls bs lk) (bs lh)
+  | AGhbn (t, l, f, lk, lh) -> Printf.sprintf "AGhbn %s %s %s %s %s" (ns t) (ls bs l) (ns f) (ls bs lk) (bs lh)
+  | ACancel -> "ACancel" | ANop -> "ANop"
+let input_str = function
+  | IApi c -> "IApi (" ^ call_str c ^ ")"
+  | IOnCb (t, c) -> Printf.sprintf "IOnCb %s (%s)" (ns t) (call_str c)
+  | IProc (w, r) -> Printf.sprintf "IProc %s %s" (ls ns w) (ls ns r)
+  | IDestroy -> "IDestroy"
+
 let ub_str = function
   | UseAfterFree -> "UseAfterFree" | DoubleFree -> "DoubleFree" | _ -> "UB"
 
@@ -331,6 +369,12 @@ let () =
           then raise (Unsupported "config");
           if cfg.nservers = 0 then raise (Unsupported "no servers");
           let (segs, final) = build_history cfg lines in
+          if dump then begin
+            Printf.printf "(* case %d: %s *)\nDefinition h%d : list (input * list tev) := [\n%s].\nDefinition f%d : list tev := %s.\n" k line k
+              (String.concat ";\n" (List.filter_map (fun (inp, tape, _) -> match inp with
+                 | Some i -> Some (Printf.sprintf "  (%s, %s)" (input_str i) (ls tev_str tape)) | None -> None) segs))
+              k (match final with Some t -> ls tev_str t | None -> "[]")
+          end;
           let mcfg = { cf_fix = all_fixed; cf_max_tries = nat_of_int (cfg.nservers * cfg.tries);
                        cf_igntc = List.mem "igntc" cfg.flags; cf_nocheckresp = List.mem "nocheckresp" cfg.flags;
                        cf_dns0x20 = List.mem "dns0x20" cfg.flags } in
